@@ -185,9 +185,11 @@ def load_monitor(path, offset):
 def C51(ctx):
     q = ctx.quick
     # S: every state x every operation x every caller; Sticky and its companions as action properties
-    r = tlc("Locking", "MCLocking", workers=4, timeout=3000)
+    # (quick: 5 of the 7 items - the items are independent of each other except through the owner role; thorough: all 7)
+    r = tlc("Locking", "MCLocking", workers=4, timeout=6000,
+            consts={"Items": '{"field", "kvs", "md", "owner", "role"}'} if q else None)
     r.actions = actions_of(r)
-    tlc_must_pass(r, "MCLocking", required_actions=["Do", "Remove", "Lock", "LockWrite"])
+    tlc_must_pass(r, "MCLocking", required_actions=["Do", "Remove", "Lock", "LockWrite", "LockTx"])
     ctx.add_tlc(r)
     # G: seeded random walks of the model from every kind of initial state, replayed on a ledger
     k = 8 if q else 10
@@ -200,7 +202,7 @@ def C51(ctx):
     # systematic families, never sampled: (a) every operation x item x value x caller as a one-step behaviour from the
     # all-unlocked and the all-locked state; (b) a transaction locks one item, then every operation x caller follows
     sysb = []
-    for cfg, n in (("GenLockingAll", 184), ("GenLockingAll2", 460)):
+    for cfg, n in (("GenLockingAll", 656), ("GenLockingAll2", 312)):
         gs = tlc("Locking", "GenLocking", cfg=cfg, workers=2, coverage=False, timeout=3000)
         got = gs.printed("B")
         if not gs.ok or len(got) != n:
@@ -209,7 +211,7 @@ def C51(ctx):
     n_random = len(beh)
     beh = sysb + beh
     ops = collections.Counter((e["item"], e["op"], e["vd"]) for b in beh for e in b[1:])
-    for item in ("field", "kv", "md", "roy"):
+    for item in ("field", "kv", "kvs", "md", "roy"):
         for op in ("update", "lock"):
             if ops[(item, op, "ok")] == 0 or ops[(item, op, "locked")] == 0:
                 raise ToolError("vacuous behaviours: %s %s never %s" % (item, op, "succeeds / hits a lock"))
@@ -294,12 +296,13 @@ def C51(ctx):
     return {"exhaustive": False, "distinct_nontrivial": distinct, "impl_answers": classes, "attempts_on_locked_items": locked_then_tried,
             "monitor": {"transactions": n_tx, "protocol_update_events": len(events) - n_tx, "substate_writes": n_w,
                         "scenario_stats": stats},
-            "rule": "MCLocking: every state (6 items x locked x value) x every operation (update / remove / lock / lock-and-write "
-                    "through one handle) x every caller (no badge, either badge, both); systematically every operation x item x value x "
-                    "caller as a one-step behaviour from the all-unlocked and the all-locked state (184) and after a transaction that "
-                    "locked one of the five lockable items (460); %d seeded random walks of %d operations from "
+            "rule": "MCLocking: every state (items x locked x value) x every operation (update / remove / lock / lock-and-write "
+                    "through one handle / lock then update as two calls of one transaction) x every caller (no badge, either badge, both); systematically every operation x item x value x "
+                    "caller as a one-step behaviour from the all-unlocked and the all-locked state with present and with absent entries "
+                    "(656) and, after a transaction that locked one of the six lockable items (present or absent entry), every "
+                    "operation on that item by every caller (312); %d seeded random walks of %d operations from "
                     "random initial states (items created locked / unlocked, present / absent), each operation one transaction on a "
-                    "component of the native test blueprint with metadata, royalty and role-assignment modules (all 6 items), and the "
+                    "component of the native test blueprint with metadata, royalty and role-assignment modules (all 7 items), and the "
                     "walk restricted to metadata / owner / role again on a fresh fungible resource manager (role = minter) and to "
                     "metadata / owner on a fresh account; outcome class and the (lock flag, value) of the host's items read back from "
                     "the database after every step; global monitor over these %d "
@@ -337,7 +340,7 @@ PROPS = {
                      "VERIFY_PARENT of subintents, Ed25519 signer badges, fractional amounts. Trusted: TLC, the test blueprint (no "
                      "decision logic: it pushes the proofs and makes the calls the plan says) and the projection of receipts."),
     "C51": dict(fn=C51, level="model_checking", design_ref="5/C51",
-                technique="TLA+ spec Locking (items field / key-value entry / metadata entry / component royalty / owner role / role with "
+                technique="TLA+ spec Locking (items field / key-value collection entry / standalone KeyValueStore entry / metadata entry / component royalty / owner role / role with "
                           "lock flag and value; actions Update, Remove, Lock, LockWrite per caller; property Sticky): TLC checks Sticky and "
                           "its companions on every transition; seeded walks replayed as transactions on a LedgerSimulator with state "
                           "read-back; TraceLocking is a global monitor over the lock_status of every field / key-value substate written "
